@@ -8,6 +8,11 @@ across several models and the likelihood-ratio test.  TLC enumerates families of
 (specs/MCResults.tla), checks the model's own invariants (family separation, Penrose conditions,
 labels) and prints every outcome with all expected figures; the driver builds a real bioResults
 from each outcome and compares every figure the library reports.
+
+The families MC_Rat* hold Hessians hs * H and BHHH bs * B with rational scales (thirds, sevenths, tenths):
+their entries are not binary floating-point numbers, and a singular Hessian of these families is in general
+NOT exactly singular once rounded (Gaussian elimination meets no zero pivot), so that "inverse, pseudo-inverse
+only when the inversion fails" is told apart from the pseudo-inverse of the property.
 """
 
 from __future__ import annotations
@@ -74,13 +79,16 @@ def classify(m: dict, raw: dict) -> dict:
 def body(chk: check.Check):
     rt.setup(chk.seed)
     quick = chk.tier == 'quick'
-    families = ['MC_Quick'] if quick else ['MC_Quick', 'MC_Full1', 'MC_Full2', 'MC_Full3', 'MC_NSD12', 'MC_NSD3']
+    families = ['MC_Quick', 'MC_RatQuick'] if quick else \
+        ['MC_Quick', 'MC_RatQuick', 'MC_Full1', 'MC_Full2', 'MC_Full3', 'MC_NSD12', 'MC_NSD3', 'MC_Rat12', 'MC_Rat3']
     chk.rule = ('raw outcomes (K, N, L, L0, Lnull, estimates and bounds, gradient, Hessian, BHHH, bootstrap replications) '
                 'enumerated by TLC from specs/MCResults.tla and emitted with every expected statistic and table cell; '
                 'distinct = distinct raw outcomes replayed into a real bioResults; evaluations = figures compared')
 
     # the seeded defects on the model itself run next to the main exploration
-    pool = ThreadPoolExecutor(max_workers=2)
+    pool = ThreadPoolExecutor(max_workers=3)
+    # the (small) rational family of the quick tier is explored next to MC_Quick
+    early = {'MC_RatQuick': pool.submit(run_tlc, 'MC_RatQuick', workers=4, timeout=3000, heap='4g')}
     mutants = {
         'boot_p_from_robust': pool.submit(run_tlc, 'MC_Tiny', 'boot_p_from_robust', workers=2, timeout=600),
         'compile_rows_value': pool.submit(run_tlc, 'MC_Tiny', 'compile_rows_value', workers=2, timeout=600),
@@ -90,9 +98,16 @@ def body(chk: check.Check):
     skipped = {'undef': 0, 'sentinel': 0}
     crashed = 0
     control_rec = None
+    panel_rec = None
     companions = None
+    image = dict(outcomes_with_an_entry_that_is_no_binary_float=0, singular_hessians=0,
+                 singular_hessians_whose_float_image_is_not_exactly_singular=0,
+                 largest_ratio_smallest_to_largest_singular_value_of_a_rounded_singular_hessian=0.0,
+                 largest_covariance_deviation_relative_floor_1=0.0)
+    near_singular: list = []      # singular by the specification, regular as floats
+    exactly_singular: list = []   # singular by the specification AND as floats
     for fam in families:
-        res = run_tlc(fam, workers='auto', timeout=3000, heap='8g')
+        res = early.pop(fam).result() if fam in early else run_tlc(fam, workers='auto', timeout=3000, heap='8g')
         chk.add_tlc(f'Results on {fam}', res)
         comps = [r for r in res.emitted if r['raw']['id'] in COMPANION_IDS]
         if len(comps) != len(COMPANION_IDS):
@@ -125,9 +140,26 @@ def body(chk: check.Check):
             chk.count(desc, val['n'])
             for k in skipped:
                 skipped[k] += val['skipped'][k]
+            plain = raw['hs'] == [1, 1] and raw['bs'] == [1, 1]
             if control_rec is None and raw['K'] == 2 and raw['boot']['ex'] and raw['H'] == [[-2, 1], [1, -2]] \
-                    and raw['theta'] == [[2, 1], [-1, 2]] and raw['B'] == [[2, 1], [1, 2]]:
+                    and raw['theta'] == [[2, 1], [-1, 2]] and raw['B'] == [[2, 1], [1, 2]] and plain:
                 control_rec = rec
+            if panel_rec is None and raw['nobs'] != raw['N'] and raw['K'] >= 2 and rec['stats']['cls']['allpos']:
+                panel_rec = rec
+            im = val['image']
+            image['outcomes_with_an_entry_that_is_no_binary_float'] += bool(val['rational'])
+            image['singular_hessians'] += bool(im['singular'])
+            k = 'largest_covariance_deviation_relative_floor_1'
+            image[k] = max(image[k], val['cov_dev'])
+            if im['singular']:
+                k = 'largest_ratio_smallest_to_largest_singular_value_of_a_rounded_singular_hessian'
+                image[k] = max(image[k], im['sv_ratio'] or 0.0)
+                if im['float_regular']:
+                    image['singular_hessians_whose_float_image_is_not_exactly_singular'] += 1
+                    if len(near_singular) < 64:
+                        near_singular.append(rec)
+                elif len(exactly_singular) < 16 and raw['K'] >= 2:
+                    exactly_singular.append(rec)
             if raw['K'] == 3 and raw['boot']['ex'] and rec['stats']['cls']['allpos']:
                 chk.sample(dict(outcome=desc, figures_compared=val['n'], mismatches=len(val['mismatches']),
                                 expected_vs_observed=val['digest']), limit=3)
@@ -138,6 +170,7 @@ def body(chk: check.Check):
     chk.extra['cells_excluded_variance_not_positive'] = skipped['undef']
     chk.extra['correlation_cells_excluded_whole_matrix_sentinel'] = skipped['sentinel']
     chk.extra['outcomes_on_which_the_library_raised'] = crashed
+    chk.extra['floating_point_image_of_the_hessians'] = image
 
     # ---- negative controls
     for name, inv in (('boot_p_from_robust', 'FamilySeparation'), ('compile_rows_value', 'CompileNamed')):
@@ -183,6 +216,28 @@ def body(chk: check.Check):
                 and any(k.startswith('compile_estimation_results(formatted=True') and ':se' in k for k in got),
                 note=f'{sorted(got)[:4]}')
 
+    # (d) the library patched (inside forked children only): the Hessian is INVERTED and the pseudo-inverse is only
+    # the fallback when the inversion raises LinAlgError.  Must be reported on every singular Hessian whose
+    # floating-point image is regular; is invisible (by construction) where the image is exactly singular.
+    if not near_singular:
+        raise tlc.MachineryError('no singular Hessian whose floating-point image is regular was explored')
+    outs = par.pmap(rr.replay_inv_fallback, near_singular, chunk=16, timeout=600)
+    caught = sum(1 for st, val in outs if st == 'ok' and any(m['key'] == 'stats:varCovar' for m in val['mismatches']))
+    outs = par.pmap(rr.replay_inv_fallback, exactly_singular, chunk=16, timeout=600)
+    unseen = sum(1 for st, val in outs if st == 'ok' and not any(m['key'] == 'stats:varCovar' for m in val['mismatches']))
+    chk.control('library patched to invert the Hessian (pseudo-inverse only as fallback on LinAlgError): reported on every '
+                'singular Hessian whose rounded image is regular', caught == len(near_singular),
+                note=f'reported on {caught} of {len(near_singular)} such outcomes; the same patch goes unnoticed on {unseen} of '
+                     f'{len(exactly_singular)} outcomes whose Hessian is exactly singular as floats (inversion raises, fallback)')
+    # (e) the library patched to use the number of observations as the N of BIC (panel data: N = individuals)
+    if panel_rec is None:
+        raise tlc.MachineryError('no outcome whose number of observations differs from the sample size')
+    got = keys_of(panel_rec, 'bic_nobs') - keys_of(panel_rec)
+    chk.control('library patched to use the number of observations instead of the reported sample size in BIC '
+                f'(outcome with sample size {panel_rec["raw"]["N"]}, {panel_rec["raw"]["nobs"]} observations)',
+                'stats:bayesian' in got and 'get_general_statistics:Bayesian Information Criterion' in got
+                and not any('Sample size' in k or 'sampleSize' in k for k in got), note=f'{sorted(got)[:4]}')
+
     chk.uncovered += [
         'se / t / p of a parameter whose variance is <= 0 in that family, and pairwise tests whose variance '
         'var_i + var_j - 2 cov_ij is <= 0: no figure is defined; the library reports sentinels (largest float, 0) that it does '
@@ -198,12 +253,22 @@ def body(chk: check.Check):
         'of compile_estimation_results',
         'raw outcomes of real estimations (floating-point raw matrices cannot be decided by TLC); the packaging of a real '
         'outcome into RawResults belongs to C07',
+        'Hessians with a non-zero eigenvalue below 1e-4 of the largest one (32-bit integers of TLC), in particular eigenvalue '
+        'ratios near the cut-off (about K * 2.2e-16) of the pseudo-inverse, where "singular" is a matter of convention',
     ]
     chk.assumptions += [
         'sqrt, log and Phi are interpreted by vb/terms.py (math.sqrt, math.log, erfc); the chi-square quantile by the power series '
         'of the incomplete gamma function + bisection in vb/resultsreplay.py; comparison at 1e-9 relative (exact rationals) and '
         '1e-8 where a primitive enters; formatted cells to the 3 significant digits the library prints',
-        'the stub model object exposes exactly the attributes RawResults.__init__ reads',
+        'the stub model object exposes exactly the attributes RawResults.__init__ reads; its database answers '
+        'get_sample_size() and get_number_of_observations() separately (N = 7 individuals with 10 observations in part of the '
+        'outcomes); the specification takes the N of BIC from the figure the report labels "Sample size" (results.py: '
+        'sampleSize = "number of individuals if panel data")',
+        'rational Hessian / BHHH entries reach the library as the nearest floats; their exact pseudo-inverse is compared at 1e-9 '
+        'relative (floor 1): rounding perturbs a singular Hessian by <= sqrt(K) * 1.1e-16 of its norm, below the relative cut-off '
+        'K * 2.2e-16 of scipy.linalg.pinv, so the rank is kept and the pseudo-inverse moves by <= 3 |X|^2 |E| <= 1e-10 on these '
+        'families (largest observed deviation and singular-value ratio: extra.floating_point_image_of_the_hessians); a library '
+        'that inverts the rounded matrix reports entries of about 1e16',
     ]
 
 
